@@ -86,6 +86,12 @@ static void run_case(long idx)
         else if (midChange) { /* single-segment script: cut it so that there is a point to change at */ size_t const l0 = S.seg[0].len; if (l0 > 1000) { S.seg[1] = S.seg[0]; S.seg[0].len = l0 / 3; S.seg[0].dir = ZSTD_e_flush; S.seg[1].len = l0 - l0 / 3; S.nseg = 2; S.chgAtSeg = 1; S.chgLevel = (int)vr_range(&r, 1, 19); v_stat("frames_with_mid_frame_level_change", 1); } }
         if (P.nbWorkers && n > 300000) for (int i = 0; i < S.nOut; i++) if (S.outPat[i] < 256) S.outPat[i] += 256;
         hlog L; memset(&L, 0, sizeof L); long tooMany = 0;
+        if (P10 && !alt && vr_chance(&r, 1, 5)) {   /* the context first starts another frame that is abandoned (session reset) while compressed bytes are still parked in its
+                                                     * internal output buffer (the call returned > 0 because the output was tiny); the frame under test follows on the same context */
+            size_t const m = V_MIN(n, (size_t)(1 + vr_u(&r, 300000))); uint8_t tiny[64]; ZSTD_inBuffer ain = { x + total, m, 0 }; ZSTD_outBuffer ao = { tiny, 1 + vr_u(&r, 64), 0 };
+            size_t const rr = ZSTD_compressStream2(c, &ao, &ain, vr_chance(&r, 1, 2) ? ZSTD_e_flush : ZSTD_e_end);
+            if (!ZSTD_isError(rr) && rr > 0) v_stat("frames_after_abandoned_frame_with_parked_output", 1);
+            ZSTD_CCtx_reset(c, ZSTD_reset_session_only); }
         if (dict && !HA_IS_LEVELONLY(alt)) { if (dictMode == 1) ZSTD_CCtx_refPrefix_advanced(c, dict, dictLen, ZSTD_dct_rawContent); else if (f == 0) ZSTD_CCtx_loadDictionary_advanced(c, dict, dictLen, ZSTD_dlm_byRef, ZSTD_dct_rawContent); }
         int const pledge = (!S.api && vr_chance(&r, 1, 3)); if (pledge && !HA_IS_LEVELONLY(alt)) ZSTD_CCtx_setPledgedSrcSize(c, n);
         size_t cs; ZSTD_parameters zp; memset(&zp, 0, sizeof zp); int adv = 0;
